@@ -92,7 +92,7 @@ def _gate(ck, p, byk):
         key = "LintGroup::lint:%s" % what
         gates = gate_for(f, cfg, bi, is_gate, want=True)
         if not gates:
-            ck.refuted(rule, key, f.loc(t["ln"]), "%s call is not dominated by the true edge of config.is_rule_enabled(..): a switched-off rule still runs" % what)
+            _other_gate(ck, p, f, cfg, pv, rule, key, bi, t, what)
             continue
         lin_calls = {o for o in arg_roots(f, pv, lin) if o[0] == "call" and method_of(o) == "next"}
         ok = False
@@ -138,6 +138,61 @@ def _gate(ck, p, byk):
 
 def method_of(o):
     return last(norm(o[3] or o[2] or ""))
+
+
+CONSUMING = {"find", "find_map", "position", "skip_while", "take_while", "map_while", "any", "all", "nth", "last", "count"}
+
+
+def _consuming_cursor(g):
+    """calls in g that run a consuming search on `by_ref()` of an iterator (and no peek in g)"""
+    pv = Prov(g)
+    if any(method(t) in ("peek", "peek_mut", "next_if", "next_if_eq", "peekable") for _, t in g.calls()):
+        return []
+    out = []
+    for bi, t in g.calls():
+        if method(t) in CONSUMING and t["args"]:
+            roots = arg_roots(g, pv, t["args"][0])
+            if any(o[0] == "call" and method_of(o) == "by_ref" for o in roots):
+                out.append((t["ln"], method(t)))
+    return out
+
+
+def _other_gate(ck, p, f, cfg, pv, rule, key, bi, t, what):
+    """the rule invocation is not behind is_rule_enabled: ungated -> REFUTED; behind a switch read from a cursor shared
+    between rules and advanced by a consuming search -> REFUTED; any other config-derived gate -> UNDECIDED"""
+    loops = [body for body in cfg.natural_loops().values() if bi in body]
+    body = min(loops, key=len) if loops else set(range(len(f.blocks)))
+    gating = []
+    for sb in body:
+        tt = f.blocks[sb]["t"]
+        if tt["k"] != "switch" or not cfg.dominates(sb, bi):
+            continue
+        succs = f.succs(sb)
+        into = [x for x in succs if cfg.dominates(x, bi) and len(cfg.pred[x]) == 1]
+        if into and len(into) < len(set(succs)):
+            gating.append((sb, tt))
+    if not gating:
+        ck.refuted(rule, key, f.loc(t["ln"]), "%s call is not behind any per-rule test inside its loop: a switched-off rule still runs" % what)
+        return
+    notes = []
+    for sb, tt in gating:
+        for o in arg_roots(f, pv, tt["discr"]):
+            if o[0] != "call":
+                continue
+            ct = f.blocks[o[1]]["t"]
+            want = norm(inst_of(ct))
+            cands = [h for h in p.fns.values() if norm(h.name) == want]
+            for h in cands:
+                hit = _consuming_cursor(h)
+                if hit:
+                    ck.refuted(rule, key, f.loc(t["ln"]), "%s runs behind a switch that %s reads from a cursor shared between rules and advanced by a consuming search (%s on by_ref(), line %d, no peek): the entry that ends one rule's search is gone for the next rule, so a rule without an entry of its own takes its neighbour's and that neighbour is treated as switched off" % (what, keyname(p, h), hit[0][1], hit[0][0]))
+                    return
+            notes.append(last(norm(inst_of(ct))) or "?")
+    hit = _consuming_cursor(f)
+    if hit:
+        ck.refuted(rule, key, f.loc(t["ln"]), "%s runs behind a switch read from a cursor advanced by a consuming search (%s on by_ref(), line %d, no peek)" % (what, hit[0][1], hit[0][0]))
+        return
+    ck.undecided(rule, key, f.loc(t["ln"]), "%s runs behind a per-rule test that is not config.is_rule_enabled(key) (derived from: %s); whether it reads this rule's own switch is not decided" % (what, sorted(set(notes)) or "non-call values"))
 
 
 # ---------------------------------------------------------------------------------------------------
